@@ -220,7 +220,7 @@ func (h *history) newIndex() {
 		return
 	}
 	c := cols[h.rng.Intn(len(cols))]
-	ix := IndexSpec{Name: fmt.Sprintf("ix%d_%s", len(h.wd.M.Idx)+int(h.stats["idx_created"]), c.Name), Col: c.Name, P: h.g.pred(c)}
+	ix := IndexSpec{Name: fmt.Sprintf("ix%d_%s", h.stats["idx_created"], c.Name), Col: c.Name, P: h.g.pred(c)} // names are never reused
 	if err := h.wd.createIndex(ix); err != nil {
 		panic(err)
 	}
